@@ -1881,6 +1881,8 @@ class Affine:
             err += 'The array must be 1-D.'
             raise ValueError(err)
 
+        qmat = np.asarray(qmat)
+        qmat = (qmat + qmat.T) / 2
         eighvals = eigh(qmat, eigvals_only=True).round(6)
         if all(eighvals >= 0):
             sign = 1
